@@ -39,8 +39,8 @@ type EngSpec struct {
 	Unlock   []hapi.Cmd // issued sequentially after the first drain (client "s"), then a second drain
 	Fine     bool
 	Points   int64
-	Collect  bool  // run the pool collectors as an extra thread
-	FinalFor int64 // length of the final drain after Unlock (default 5s)
+	Collect  bool     // run the pool collectors as an extra thread
+	FinalFor int64    // length of the final drain after Unlock (default 5s)
 	Probes   []string // harness pokes evaluated at the end of the run (results in EngRun.Probes)
 }
 
